@@ -4,6 +4,11 @@
 mod arena;
 mod bytecheck;
 mod ctx;
+mod itercheck;
+mod misccheck;
+mod ppcheck;
+mod subcheck;
+mod subgen;
 mod journal;
 mod report;
 
@@ -53,6 +58,54 @@ fn main() {
             let f = bytecheck::pbt(&c, bytecheck::mode_for(&c.prop));
             c.finish(f);
         }
+        "iter-exh" => {
+            let f = itercheck::exhaustive(&c);
+            c.finish(f);
+        }
+        "iter-pbt" => {
+            let f = itercheck::pbt(&c);
+            c.finish(f);
+        }
+        "eq-exh" => {
+            let f = misccheck::eq_exhaustive(&c);
+            c.finish(f);
+        }
+        "eq-pbt" => {
+            let f = misccheck::eq_pbt(&c);
+            c.finish(f);
+        }
+        "pair-indices" => {
+            let f = misccheck::pair_indices(&c);
+            c.finish(f);
+        }
+        "pair-pbt" => {
+            let f = misccheck::pair_pbt(&c);
+            c.finish(f);
+        }
+        "sub-exh" => {
+            let f = subcheck::exhaustive(&c, subcheck::mode_for(&c.prop));
+            c.finish(f);
+        }
+        "sub-pbt" => {
+            let f = subcheck::pbt(&c, subcheck::mode_for(&c.prop), "sub-proptest");
+            c.finish(f);
+        }
+        "sub-phases" => {
+            let f = subcheck::pbt(&c, subcheck::mode_for(&c.prop), "sub-phases");
+            c.finish(f);
+        }
+        "sub-short" => {
+            let f = subcheck::pbt(&c, subcheck::mode_for(&c.prop), "sub-short");
+            c.finish(f);
+        }
+        "pp-exh" => {
+            let f = ppcheck::exhaustive(&c, ppcheck::mode_for(&c.prop));
+            c.finish(f);
+        }
+        "pp-pbt" => {
+            let f = ppcheck::pbt(&c, ppcheck::mode_for(&c.prop));
+            c.finish(f);
+        }
         "replay" => {
             let path = c.rest.get(0).expect("replay <file>");
             let v: Value = serde_json::from_slice(&std::fs::read(path).expect("read replay file")).expect("parse replay file");
@@ -60,6 +113,11 @@ fn main() {
             c2.prop = v["property"].as_str().unwrap_or("").to_string();
             let r = match v["kind"].as_str().unwrap_or("") {
                 "byte" => bytecheck::replay(&c2, &v),
+                "byte-iter" => itercheck::replay(&c2, &v),
+                "eq" => misccheck::eq_replay(&c2, &v),
+                "sub" if v["op"].as_str().unwrap_or("").contains('[') => ppcheck::replay(&c2, &v),
+                "sub" => subcheck::replay(&c2, &v),
+                "pair" => misccheck::pair_replay(&c2, &v),
                 k => {
                     eprintln!("unknown replay kind {}", k);
                     std::process::exit(2);
